@@ -1,45 +1,261 @@
 """C17 — text and header input is parsed faithfully or rejected, never mis-handled.
 Lean: StirVerif/C17 (model of the KeyParser text core + theorems).
 Tie: hand-written model + correspondence (harness/c17_keyparser.cxx vs lean/Driver/C17.lean, line by line).
-Oracle: registry round trip / keyword matching / aliases / vectorised keys on the implementation (part 1),
-robustness of KeyParser::parse, read_interfile_image, read_interfile_PDFS, MultipleDataSetHeader under
-AddressSanitizer + UBSan with the anchored STIR sources compiled *instrumented* into the harness (part 2,
-harness/c17_fuzz.cxx): runtime evidence, not a theorem."""
-import os
+Oracle part 1 (harness/c17_keyparser.cxx): registry round trip / keyword matching / aliases / vectorised keys on the implementation.
+Oracle part 2 (harness/c17_fuzz.cxx): KeyParser::parse, read_interfile_image, read_interfile_PDFS, MultipleDataSetHeader on
+grammar-aware mutations of library-written headers under AddressSanitizer + UBSan, with the anchored STIR sources compiled
+*instrumented* into the harness.  Part 2 is runtime evidence, not a theorem."""
+import concurrent.futures, hashlib, os, re, subprocess
 import vlib
 
 PROP = "C17"
 
+# STIR sources compiled with the sanitizers into the fuzz harness (they shadow the objects of the plain libraries)
+INSTRUMENTED = ["buildblock/KeyParser.cxx", "buildblock/interfile_keyword_functions.cxx", "buildblock/MultipleDataSetHeader.cxx",
+                "IO/InterfileHeader.cxx", "IO/InterfileHeaderSiemens.cxx", "IO/InterfilePDFSHeaderSPECT.cxx", "IO/interfile.cxx",
+                "buildblock/ProjDataInfo.cxx", "buildblock/Scanner.cxx", "buildblock/ProjDataFromStream.cxx"]
+SAN_FLAGS = ["-fsanitize=address,undefined", "-fno-sanitize-recover=all", "-fno-omit-frame-pointer"]
+
+
+def _cxx_flags(bdir):
+    return ["-std=gnu++17", "-O1", "-g1", "-w", "-DNDEBUG", "-DUCL_STIR_VERIF",
+            "-I", os.path.join(bdir, "src", "include"), "-I", os.path.join(vlib.REPO, "src", "include"),
+            "-I", "/usr/include/hdf5/serial", "-I", os.path.join(vlib.VERIF, "harness")] + SAN_FLAGS
+
+
+def _compile_cached(src, bdir, objdir):
+    """object file for `src`, keyed by the hash of its preprocessed text (so header changes are seen)"""
+    flags = _cxx_flags(bdir)
+    pre = subprocess.run(["g++"] + flags + ["-E", "-P", src], stdout=subprocess.PIPE, stderr=subprocess.PIPE)
+    if pre.returncode != 0:
+        return None, pre.stderr.decode(errors="replace")[-3000:]
+    h = hashlib.sha1(pre.stdout + " ".join(flags).encode()).hexdigest()[:20]
+    obj = os.path.join(objdir, "%s-%s.o" % (os.path.basename(src).replace(".cxx", ""), h))
+    if not os.path.exists(obj):
+        tmp = obj + ".tmp%d" % os.getpid()
+        r = vlib.sh(["g++"] + flags + ["-c", src, "-o", tmp])
+        if r.returncode != 0:
+            return None, r.stdout[-3000:]
+        os.replace(tmp, obj)
+    return obj, ""
+
+
+def build_fuzz_harness():
+    bdir = vlib.stir_build("plain")
+    objdir = os.path.join(vlib.BUILD, "c17-obj")
+    os.makedirs(objdir, exist_ok=True)
+    os.makedirs(vlib.BIN, exist_ok=True)
+    srcs = [os.path.join(vlib.REPO, "src", s) for s in INSTRUMENTED] + [os.path.join(vlib.VERIF, "harness", "c17_fuzz.cxx")]
+    with concurrent.futures.ThreadPoolExecutor(max_workers=len(srcs)) as ex:
+        res = list(ex.map(lambda s: _compile_cached(s, bdir, objdir), srcs))
+    for (obj, err), s in zip(res, srcs):
+        if obj is None:
+            raise SystemExit("C17: cannot compile %s with sanitizers:\n%s" % (s, err))
+    exe = os.path.join(vlib.BIN, "c17_fuzz-asan")
+    r = vlib.sh(["g++"] + SAN_FLAGS + [o for o, _ in res] + ["-o", exe] + vlib.stir_link_args(bdir))
+    if r.returncode != 0:
+        raise SystemExit("C17: cannot link the fuzz harness:\n" + r.stdout[-4000:])
+    # keep the cache small: drop objects not used by this build
+    used = {o for o, _ in res}
+    for f in os.listdir(objdir):
+        p = os.path.join(objdir, f)
+        if p not in used and f.endswith(".o"):
+            try:
+                os.remove(p)
+            except OSError:
+                pass
+    return exe
+
+
+def fuzz_env():
+    return dict(os.environ, STIR_CONFIG_DIR=os.path.join(vlib.REPO, "src", "config"), STIR_REPO=vlib.REPO,
+                C17_CORPUS=os.path.join(vlib.VERIF, "corpus", PROP),
+                ASAN_OPTIONS="detect_leaks=0:max_allocation_size_mb=256:detect_odr_violation=0:exitcode=66:print_summary=0:detect_stack_use_after_return=0",
+                UBSAN_OPTIONS="print_stacktrace=1:exitcode=66")
+
+
+_UB_KINDS = [(r"division by zero", "division-by-zero"), (r"reference binding to null pointer", "null-reference"),
+             (r"member (call|access) (on|within) null pointer", "null-member-access"), (r"signed integer overflow", "signed-integer-overflow"),
+             (r"negation of", "signed-integer-overflow"), (r"load of (misaligned|null)", "bad-load"), (r"store to (misaligned|null)", "bad-store"),
+             (r"index -?\d+ out of bounds", "index-out-of-bounds"), (r"shift exponent", "bad-shift"), (r"is outside the range of representable values", "float-cast-overflow"),
+             (r"load of value .* not a valid value", "invalid-enum-or-bool"), (r"variable length array bound", "vla-bound"),
+             (r"downcast of address", "bad-downcast"), (r"applying (non-)?zero offset", "pointer-overflow"), (r"pointer index expression", "pointer-overflow")]
+
+
+def classify(stderr_text, how):
+    """stable key for a killed input: kind of report + innermost STIR function on the stack"""
+    kind = None
+    m = re.search(r"ERROR: AddressSanitizer: ([a-zA-Z0-9_-]+)", stderr_text)
+    if m:
+        kind = "asan-" + m.group(1)
+        if m.group(1) == "requested":
+            kind = "asan-allocation-size-too-big"
+        if m.group(1) == "SEGV":
+            kind = "asan-SEGV"
+    m = re.search(r"runtime error: (.*)", stderr_text)
+    if m and (kind is None or stderr_text.find("runtime error") < stderr_text.find("ERROR: AddressSanitizer")):
+        kind = "ubsan-other"
+        for pat, name in _UB_KINDS:
+            if re.search(pat, m.group(1)):
+                kind = "ubsan-" + name
+                break
+    if "VERIF-TIMEOUT" in stderr_text:
+        kind = "timeout"
+    if kind is None:
+        kind = "killed-" + how
+    func = "unknown-function"
+    for fm in re.finditer(r"#\d+ 0x[0-9a-f]+ in (.+?) (?:/|\(/|\S+:\d+)", stderr_text):
+        name = fm.group(1)
+        if name.startswith("stir::") or " stir::" in name:
+            name = name[name.find("stir::"):]
+            if re.match(r"stir::(VectorWithOffset|NumericVectorWithOffset|Array|BasicCoordinate|Coordinate\dD|CartesianCoordinate\dD|IndexRange|detail::|round\b)", name):
+                continue      # generic containers / helpers: the caller is the interesting frame
+            name = re.sub(r"\(.*", "", name)          # drop the argument list
+            name = re.sub(r"<[^<>]*>", "", name)       # drop template arguments (one level is enough for a key)
+            name = re.sub(r"<[^<>]*>", "", name)
+            func = name.replace(" ", "")
+            break
+    return "%s:%s" % (kind, func)
+
+
+def report_tail(stderr_text):
+    i = stderr_text.find("runtime error")
+    j = stderr_text.find("ERROR: AddressSanitizer")
+    k = stderr_text.find("VERIF-TIMEOUT")
+    pos = [p for p in (i, j, k) if p >= 0]
+    start = max(0, min(pos) - 200) if pos else max(0, len(stderr_text) - 2500)
+    return stderr_text[start:start + 3500]
+
+
+def run_fuzz(chk, tier):
+    exe = build_fuzz_harness()
+    work = os.path.join(vlib.OUT, "c17", "fuzz-%s-%d" % (tier, vlib.seed()))
+    subprocess.run(["rm", "-rf", work])
+    os.makedirs(work, exist_ok=True)
+    resfile = os.path.join(work, "result.txt")
+    try:
+        r = vlib.sh([exe, "run", str(vlib.seed()), tier, work, resfile], env=fuzz_env(), timeout=7200)
+    except subprocess.TimeoutExpired:
+        chk.violation("fuzz-timeout", "C17 fuzz harness timed out", "timeout", found_input=False)
+        return {}
+    if r.returncode != 0 or not os.path.exists(resfile):
+        chk.violation("fuzz-harness-abort", "C17 fuzz harness itself aborted (exit %d)" % r.returncode, r.stdout[-4000:], found_input=False)
+        return {}
+    verdicts, per_target, killed_by_key, inconsistent_by_key, done = {}, {}, {}, {}, None
+    for l in open(resfile, errors="replace"):
+        t = l.split()
+        if not t:
+            continue
+        if t[0] == "CASE":
+            v = t[3]
+            if v == "rejected" and len(t) > 4:
+                v += "-" + t[4]
+            verdicts[v] = verdicts.get(v, 0) + 1
+            per_target[t[1]] = per_target.get(t[1], 0) + 1
+            if t[3] == "inconsistent":
+                msg = " ".join(t[4:]).split(" | ")[0]
+                key = "inconsistent:%s:%s" % (t[1], re.sub(r"[^a-zA-Z]+", "-", re.sub(r"\d+", "N", msg)).strip("-")[:80])
+                inp = l.split("input=")[-1].strip() if "input=" in l else None
+                inconsistent_by_key.setdefault(key, []).append((t[1], msg, inp))
+        elif t[0] == "KILLED":
+            target, idx, how, inputfile, stderrfile = t[1], t[2], t[3], t[4], t[5]
+            per_target[target] = per_target.get(target, 0) + 1
+            verdicts["killed"] = verdicts.get("killed", 0) + 1
+            err = open(stderrfile, errors="replace").read() if os.path.exists(stderrfile) else ""
+            killed_by_key.setdefault(classify(err, how), []).append((target, inputfile, err))
+        elif t[0] == "DONE":
+            done = l.strip()
+    if done is None:
+        chk.violation("fuzz-incomplete", "C17 fuzz harness did not finish", r.stdout[-2000:], found_input=False)
+    for key, cases in sorted(killed_by_key.items()):
+        target, inputfile, err = min(cases, key=lambda c: os.path.getsize(c[1]) if os.path.exists(c[1]) else 1 << 30)
+        text = open(inputfile, "rb").read() if os.path.exists(inputfile) else b""
+        desc = ("%s: %d of the generated inputs kill the reader under ASan/UBSan (target %s, smallest input %d bytes): %s" % (
+            key, len(cases), target, len(text), " ".join(report_tail(err).split())[:260]))
+        replay = "# seed=%d tier=%s\nfuzz-target %s\nfuzz-input-hex %s\n# sanitizer report:\n# %s\n" % (
+            vlib.seed(), tier, target, text.hex(), report_tail(err).replace("\n", "\n# "))
+        chk.violation(key, desc, replay)
+    for key, cases in sorted(inconsistent_by_key.items()):
+        target, msg, inp = cases[0]
+        text = open(inp, "rb").read() if inp and os.path.exists(inp) else b""
+        chk.violation(key, "%s: reader accepted %d generated inputs in an inconsistent state (target %s): %s" % (key, len(cases), target, msg),
+                      "# seed=%d tier=%s\nfuzz-target %s\nfuzz-input-hex %s\n# %s\n" % (vlib.seed(), tier, target, text.hex(), msg))
+    return dict(fuzz_inputs=sum(per_target.values()), fuzz_inputs_per_target=per_target, fuzz_verdicts=verdicts,
+                fuzz_killed_classes={k: len(v) for k, v in killed_by_key.items()},
+                fuzz_inconsistent_classes={k: len(v) for k, v in inconsistent_by_key.items()},
+                fuzz_instrumented_sources=INSTRUMENTED)
+
+
+def replay_fuzz(chk, replay):
+    target, data = None, None
+    for l in open(replay):
+        if l.startswith("fuzz-target"):
+            target = l.split()[1]
+        elif l.startswith("fuzz-input-hex"):
+            t = l.split()
+            data = bytes.fromhex(t[1]) if len(t) > 1 else b""
+    exe = build_fuzz_harness()
+    work = os.path.join(vlib.OUT, "c17", "replay")
+    os.makedirs(work, exist_ok=True)
+    inp = os.path.join(work, "input.txt")
+    open(inp, "wb").write(data)
+    r = vlib.sh([exe, "one", target, work, inp], env=fuzz_env(), timeout=300)
+    print("replay: target=%s input=%d bytes exit=%d %s" % (target, len(data), r.returncode,
+                                                            " ".join([l for l in r.stdout.splitlines() if l.startswith("VERDICT")][-1:])))
+    if r.returncode == 3:
+        msg = [l for l in r.stdout.splitlines() if l.startswith("VERDICT")][-1][8:]
+        key = "inconsistent:%s:%s" % (target, re.sub(r"[^a-zA-Z]+", "-", re.sub(r"\d+", "N", msg.split(" ", 1)[1])).strip("-")[:80])
+        chk.violation(key, "replay: " + msg, open(replay).read())
+    elif r.returncode != 0:
+        key = classify(r.stdout, "exit%d" % r.returncode)
+        chk.violation(key, "replay: %s: %s" % (key, " ".join(report_tail(r.stdout).split())[:260]), open(replay).read())
+    chk.coverage.update(dict(evaluations=1, distinct_nontrivial=1, rule="replay of one fuzz input", samples=[target]))
+
 
 def main(tier, replay):
+    is_fuzz_replay = False
     if replay:
         for l in open(replay):
             if l.startswith("# seed="):
                 os.environ["VERIF_SEED"] = l.split("seed=")[1].split()[0]
                 tier = l.split("tier=")[1].split()[0]
+            if l.startswith("fuzz-target"):
+                is_fuzz_replay = True
     chk = vlib.Check(PROP, tier, level="proof")
     audit = vlib.lean_gate(chk, PROP)
+    if is_fuzz_replay:
+        replay_fuzz(chk, replay)
+        if audit:
+            vlib.proof_coverage(chk, audit, "cd lean && lake build StirVerif stirdriver && lake env lean ../build/out/Audit_C17.lean")
+        return chk.finish()
     stats = vlib.run_differential(chk, PROP, "c17_keyparser", tier, max_report=8)
     classes = []
     cf = os.path.join(vlib.OUT, "c17_%s.impl.classes" % tier)
     if os.path.exists(cf):
         classes = [l.rstrip("\n") for l in open(cf)]
+    fuzz = run_fuzz(chk, tier)
     vlib.standard_coverage(chk, stats,
-        "real KeyParser (get_keyword, standardise_keyword, add_key/add_vectorised_key/add_alias_key, parse, parameter_info) against the Lean model, "
+        "Part 1: real KeyParser (get_keyword, standardise_keyword, add_key/add_vectorised_key/add_alias_key, parse, parameter_info) against the Lean model, "
         "one line per operation: keywords/lines of Interfile headers written by the library and of parameter_info() of every constructible "
         "registered class, seeded grammar-aware mutations (value/index replacement, line deletion/duplication/swap, truncation at line and byte, "
-        "CR/LF, continuation, ':=' damage, equivalent and damaged keywords) on a fixed probe table, tables derived from library-written headers and random tables. "
+        "CR/LF, continuation, ':=' damage, equivalent and damaged keywords) on a fixed probe table, tables derived from library-written headers and random tables; "
         "distinct = distinct operation lines. Oracle on the implementation: parameter_info->parse->parameter_info for every class of 19 registry roots "
         "(enumerated at run time, each in a child process; also after accepted numeric value replacements), case/white-space-insensitive keyword matching, "
-        "alias resolution, vectorised keys at the index given, KeyParser round trip on random printable values.",
+        "alias resolution, vectorised keys at the index given, KeyParser round trip on random printable values. "
+        "Part 2 (fuzz_* keys): KeyParser::parse, read_interfile_image, read_interfile_PDFS (PET, SPECT, Siemens), MultipleDataSetHeader with the anchored sources "
+        "compiled with -fsanitize=address,undefined: every seed header truncated at every line (with/without newline), every single line deleted, truncation at sampled bytes, "
+        "and seeded mutations (hostile values incl. huge/negative sizes, index changes, insertion of known keys, duplication, swap, keyword damage, over-long values); "
+        "verdict per input: rejected / accepted and consistent with header and data-file size / inconsistent / killed (sanitizer report, crash, allocation > 256 MB, time-out).",
         extra=dict(registered_classes=classes,
                    classes_round_trip_same=len([c for c in classes if "| same |" in c]),
-                   classes_not_constructible=len([c for c in classes if "not-constructible" in c])))
+                   classes_not_constructible=len([c for c in classes if "not-constructible" in c]), **fuzz))
+    chk.coverage["evaluations"] = chk.coverage.get("evaluations", 0) + fuzz.get("fuzz_inputs", 0)
     chk.assumptions += [
         "characters are bytes in the \"C\" locale; NUL bytes and ${ENV} substitution are not modelled (generators avoid them)",
         "floating point / unsigned / long values, arrays, coordinates and nested parsing objects are not in the Lean model: they are covered by the round-trip oracle on the implementation only",
         "atoi/strtol and istream>>int follow glibc/libstdc++ on x86-64 (saturation at LONG_MIN/MAX then wrap to 32 bit; failbit on int overflow)",
-        "memory safety, allocation size and termination under arbitrary input are runtime evidence (sanitizer run), not theorems",
+        "memory safety, allocation size and termination under malformed input are RUNTIME EVIDENCE from the sanitizer run on the generated inputs (mutation loop, not coverage-guided), not theorems; "
+        "only the sources in coverage.fuzz_instrumented_sources (and inlined headers) are instrumented, the rest of STIR is linked from the plain build",
         "classes that cannot be constructed without external data are listed in coverage.registered_classes, not failed"]
     if audit:
         vlib.proof_coverage(chk, audit, "cd lean && lake build StirVerif stirdriver && lake env lean ../build/out/Audit_C17.lean")
